@@ -506,6 +506,87 @@ theorem concat_out_of_range (sizes : List Nat) (idx : Int) :
     ((sizes.sum : Int) ≤ idx → locate sizes idx = .error .indexError) :=
   ⟨concat_rejects_below sizes idx, concat_rejects_above sizes idx⟩
 
+/-! ### the index map of `ConcatDataset` is an order-preserving bijection (phase 4) -/
+
+/-- **onto**: every item `j` of every member position `d` (members of size 0 have none; the same object may sit at
+several positions) is served by the index `sizes[0] + … + sizes[d-1] + j`, which lies in `[0, len)` -/
+theorem concat_locate_onto (sizes : List Nat) (d j : Nat) (hd : d < sizes.length) (hj : j < sizes[d]) :
+    (sizes.take d).sum + j < sizes.sum ∧ locate sizes (((sizes.take d).sum + j : Nat) : Int) = .ok (d, j) := by
+  have hlt : (sizes.take d).sum + j < sizes.sum := by
+    have h1 := List.take_append_drop (d + 1) sizes
+    have h2 : (sizes.take (d + 1)).sum + (sizes.drop (d + 1)).sum = sizes.sum := by rw [← List.sum_append, h1]
+    rw [List.take_add_one, List.sum_append] at h2
+    simp [List.getElem?_eq_getElem hd] at h2
+    omega
+  refine ⟨hlt, ?_⟩
+  obtain ⟨d', j', h1, hd', hj', e⟩ := Dataset.concat_locate_spec sizes _ hlt
+  obtain ⟨rfl, rfl⟩ := Dataset.concat_locate_unique sizes d d' j j' hd hd' hj hj' e
+  exact h1
+
+/-- **one-to-one** on `[0, len)` -/
+theorem concat_locate_injective (sizes : List Nat) (i i' : Nat) (h : i < sizes.sum) (h' : i' < sizes.sum)
+    (e : locate sizes i = locate sizes i') : i = i' := by
+  obtain ⟨d, j, h1, _, _, e1⟩ := Dataset.concat_locate_spec sizes i h
+  obtain ⟨d', j', h2, _, _, e2⟩ := Dataset.concat_locate_spec sizes i' h'
+  rw [h1, h2] at e
+  injection e with e; injection e with ed ej
+  subst ed; subst ej; omega
+
+/-- **order-preserving**: a larger index lies in a later member position, or later in the same one -/
+theorem concat_locate_strict_mono (sizes : List Nat) (i i' : Nat) (hlt : i < i') (h' : i' < sizes.sum)
+    (d j d' j' : Nat) (e : locate sizes i = .ok (d, j)) (e' : locate sizes i' = .ok (d', j')) :
+    d < d' ∨ (d = d' ∧ j < j') := by
+  obtain ⟨d0, j0, h1, hd, hj, e1⟩ := Dataset.concat_locate_spec sizes i (by omega)
+  obtain ⟨d1, j1, h2, hd', hj', e2⟩ := Dataset.concat_locate_spec sizes i' h'
+  rw [h1] at e; rw [h2] at e'
+  injection e with e; injection e with ed ej
+  injection e' with e'; injection e' with ed' ej'
+  subst ed; subst ej; subst ed'; subst ej'
+  rcases Nat.lt_trichotomy d0 d1 with hl | heq | hg
+  · exact Or.inl hl
+  · subst heq; exact Or.inr ⟨rfl, by omega⟩
+  · exfalso
+    -- the whole of position `d1` lies before position `d0`
+    have h3 : (sizes.take (d1 + 1)).sum ≤ (sizes.take d0).sum := by
+      have : sizes.take (d1 + 1) = (sizes.take d0).take (d1 + 1) := by
+        rw [List.take_take]; congr 1; omega
+      rw [this]
+      have := List.take_append_drop (d1 + 1) (sizes.take d0)
+      calc ((sizes.take d0).take (d1 + 1)).sum
+          ≤ ((sizes.take d0).take (d1 + 1)).sum + ((sizes.take d0).drop (d1 + 1)).sum := by omega
+        _ = (sizes.take d0).sum := by rw [← List.sum_append, this]
+    rw [List.take_add_one, List.sum_append] at h3
+    simp [List.getElem?_eq_getElem hd'] at h3
+    omega
+
+/-- **the bijection in one statement**: `idx ↦ locate sizes idx` and `(d, j) ↦ sizes[0] + … + sizes[d-1] + j` are
+mutually inverse between `[0, len)` and `{(d, j) | d < #members, j < sizes[d]}` — for every list of member sizes -/
+theorem concat_locate_bijection (sizes : List Nat) :
+    (∀ i, i < sizes.sum → ∃ d j, locate sizes (i : Int) = .ok (d, j) ∧ ∃ hd : d < sizes.length, j < sizes[d] ∧
+        (sizes.take d).sum + j = i) ∧
+    (∀ d j (hd : d < sizes.length), j < sizes[d] →
+        (sizes.take d).sum + j < sizes.sum ∧ locate sizes (((sizes.take d).sum + j : Nat) : Int) = .ok (d, j)) := by
+  refine ⟨fun i h => ?_, fun d j hd hj => concat_locate_onto sizes d j hd hj⟩
+  obtain ⟨d, j, h1, hd, hj, e⟩ := Dataset.concat_locate_spec sizes i h
+  exact ⟨d, j, h1, hd, hj, e.symm⟩
+
+/-- **the same object listed several times**: the object served is the one at the located position, and the local
+index is within *that object's* length — whatever the pattern of repetitions -/
+theorem concat_repeated_objects (objSizes pattern : List Nat) (hp : pattern ≠ []) (i : Nat)
+    (h : i < (pattern.map fun p => objSizes.getD p 0).sum) :
+    ∃ d j, concatGetRep objSizes pattern i = .ok (d, pattern.getD d 0, j) ∧ d < pattern.length ∧
+      j < objSizes.getD (pattern.getD d 0) 0 ∧ ((pattern.take d).map fun p => objSizes.getD p 0).sum + j = i := by
+  obtain ⟨d, j, h1, hd, hj, e⟩ := Dataset.concat_locate_spec _ i h
+  have hne : (pattern.map fun p => objSizes.getD p 0).isEmpty = false := by
+    cases pattern with
+    | nil => exact absurd rfl hp
+    | cons a as => rfl
+  refine ⟨d, j, ?_, by simpa using hd, ?_, ?_⟩
+  · simp only [concatGetRep, concatGet, hne, h1]; rfl
+  · have hd2 : d < pattern.length := by simpa using hd
+    simpa [List.getD_eq_getElem?_getD, List.getElem?_eq_getElem hd2] using hj
+  · rw [← List.map_take] at e; exact e.symm
+
 /-! ## reproducibility of the synthetic items -/
 
 /-- **`FakeMRIBlobsDataset[i]` does not depend on the state of the global RNG**: whenever the seed
@@ -820,6 +901,11 @@ example : locate [2, 0, 3] 4 = .ok (2, 2) := by rfl
 example : locate [2, 0, 3] (-1) = .ok (2, 2) := by rfl
 example : locate [2, 0, 3] 5 = .error .indexError := by rfl
 example : locate [2, 0, 3] (-6) = .error .valueError := by rfl
+example : (1 : Nat) < [2, 0, 3, 2].length ∧ (2 : Nat) < [2, 0, 3, 2].length ∧ (1 : Nat) < [2, 0, 3, 2][2] := by decide
+example : locate [2, 0, 3, 2] ((([2, 0, 3, 2].take 2).sum + 1 : Nat) : Int) = .ok (2, 1) := by rfl
+example : concatGetRep [2, 0, 3] [0, 1, 0, 2, 0] 5 = .ok (3, 2, 1) := by rfl
+example : concatGetRep [2, 0, 3] [0, 1, 0, 2, 0] (-1) = .ok (4, 0, 1) := by rfl
+example : (5 : Nat) < ([0, 1, 0, 2, 0].map fun p => [2, 0, 3].getD p 0).sum := by decide
 example : bisectRightBin (cumsum [2, 0, 3]) 2 = 2 := by decide
 example : (cumsum [2, 0, 3]).Pairwise (· ≤ ·) := by decide
 example : flatPairs [2, 0, 3] = [(0, 0), (0, 1), (2, 0), (2, 1), (2, 2)] := by decide
